@@ -250,6 +250,11 @@ func (smpStateExpect1) startAuthenticate(c *Conversation, question string, mutua
 		s1.msg.question = question
 	}
 
+	if len(s1.msg.tlv().tlvValue) > 0xFFFF {
+		// the TLV length field has 16 bits: a longer payload would go out with a wrapped length
+		return nil, newOtrError("SMP question is too long")
+	}
+
 	c.smp.s1 = &s1
 	c.smp.state = smpStateExpect2{}
 
